@@ -42,8 +42,26 @@ class NextResponse(StreamingResponse):
     This is a response object for middleware.
     """
 
+    # The "set-cookie" lines of the wrapped application. `Headers` folds repeated
+    # names into one comma separated value, which is not valid for cookies.
+    raw_set_cookies: Tuple[str, ...] = ()
+
     def render_stream(self) -> Generator[bytes, None, None]:
         yield from self.iterable
+
+    def list_headers(self, *, as_bytes):
+        headers = super().list_headers(as_bytes=as_bytes)
+        folded = ", ".join(self.raw_set_cookies)
+        if len(self.raw_set_cookies) > 1 and self.headers.get("set-cookie") == folded:
+            # untouched by the middleware: send the lines as the application did
+            headers = [h for h in headers if h[0] not in ("set-cookie", b"set-cookie")]
+            for line in self.raw_set_cookies:
+                headers.append(
+                    (b"set-cookie", line.encode("latin-1"))
+                    if as_bytes
+                    else ("set-cookie", line)
+                )
+        return headers
 
     @classmethod
     def from_app(cls, app: WSGIApp, request: NextRequest) -> "NextResponse":
@@ -52,17 +70,25 @@ class NextResponse(StreamingResponse):
         """
         status_code = 200
         headers: Headers = Headers()
+        set_cookies: Tuple[str, ...] = ()
 
         def start_response(
             status: str, response_headers: Iterable[Tuple[str, str]], exc_info=None
         ) -> None:
             nonlocal status_code
             nonlocal headers
+            nonlocal set_cookies
             status_code = int(status.split(" ")[0])
+            response_headers = list(response_headers)
             headers = Headers(response_headers)
+            set_cookies = tuple(
+                v for k, v in response_headers if k.lower() == "set-cookie"
+            )
 
         body = ensure_next(app(request, start_response))
-        return NextResponse(body, status_code, headers)
+        response = NextResponse(body, status_code, headers)
+        response.raw_set_cookies = set_cookies
+        return response
 
 
 def middleware(
